@@ -20,7 +20,7 @@ def list_jobs(tier):
 def options(tier):
     if tier == "thorough":
         return pipeline.Options(timeout_ms=30000, max_queries=256, unroll=8)
-    return pipeline.Options(timeout_ms=4000, max_queries=48, unroll=5)
+    return pipeline.Options(timeout_ms=2500, max_queries=48, unroll=5, max_unknown=1, budget_s=20.0)
 
 
 def get_program(job):
